@@ -212,7 +212,7 @@ def handle (j : Json) : Except String Json := do
       | .ok x => Codec.encStr x
       | .error e => Json.mkObj [("e", .str e.name)]).toArray)])
   | "json" =>
-    -- {"k":"json","texts":[str,…],"values":[tagged,…],"indent":n|null,"ascii":bool,"epm":[str,…],"jsonld":[str,…]}
+    -- {"k":"json","texts":[str,…],"values":[tagged,…],"indent":n|null,"ascii":bool,"sort":bool,"epm":[str,…],"jsonld":[str,…]}
     --   → what the modelled json.loads makes of each text (dict semantics applied), the text the modelled json.dumps
     --     writes for each value, each extended-prefix-map text read as record dictionaries, each JSON-LD text as terms
     let texts ← Codec.strs (Codec.fieldD j "texts" (.arr #[]))
@@ -221,6 +221,7 @@ def handle (j : Json) : Except String Json := do
       | .null => pure none
       | x => some <$> x.getNat?
     let ascii := Codec.boolD j "ascii" true
+    let sortKeys := Codec.boolD j "sort" false
     let epm ← Codec.strs (Codec.fieldD j "epm" (.arr #[]))
     let jsonld ← Codec.strs (Codec.fieldD j "jsonld" (.arr #[]))
     let err := Json.mkObj [("t", "error")]
@@ -228,7 +229,8 @@ def handle (j : Json) : Except String Json := do
       ("parsed", .arr (texts.map fun t => match JsonText.parse t with
         | some v => encJV v.dedup
         | none => err).toArray),
-      ("rendered", .arr (values.map fun v => Codec.encStr (JsonText.render ⟨indent, ascii⟩ 0 v)).toArray),
+      ("rendered", .arr (values.map fun v =>
+        Codec.encStr (JsonText.render ⟨indent, ascii⟩ 0 (if sortKeys then v.sortKeys else v))).toArray),
       ("epm", .arr (epm.map fun t => match JsonFiles.epmRead t with
         | some ds => Json.arr (ds.map encRecordDict).toArray
         | none => .null).toArray),
